@@ -113,13 +113,25 @@ def _run(ctx, d, BaseHeader, Header, MPI, SubHeader, String2Key, PubKeyV4, Creat
     bt3.flush()
     # old-format decode of arbitrary octets incl. indeterminate length
     for first in range(0x80, 0xc0):
-        for _ in range(ctx.n(2, 12)):
-            data = bytes([first]) + bytes(ctx.rng.randrange(256) for _ in range(ctx.rng.randrange(0, 9)))
+        fixed = [b'\xff' * 6, b'\x00\x01\x00\x00\x07', b'\x01\x00\xff', b'']
+        for k in range(len(fixed) + ctx.n(2, 12)):
+            data = bytes([first]) + (fixed[k] if k < len(fixed) else bytes(ctx.rng.randrange(256) for _ in range(ctx.rng.randrange(0, 9))))
             o = outcome(hdr_parse_impl, Header, data)
             mo = d.call('hdr_parse', hx(data))
             got = ('%s %s %s %s %s' % tuple([hn(x) for x in o[1][:4]] + [hx(o[1][4])])) if o[0] == 'ok' else 'ERR'
             ctx.case('oldhdr-decode', data, sample={'octets': data.hex(), 'impl': got})
             ctx.expect_eq('oldhdr-decode', 'old-format header parse differs from model', {'op': 'hdr_parse', 'data': data.hex()}, got, mo)
+            # direct RFC 4880 4.2 / 4.2.1 oracle (Props/C09.v C09_old_header_dec_eq_rfc / _indeterminate_dec): tag = bits 5..2, length type
+            # 0, 1, 2 -> the big-endian value of 1, 2, 4 octets, length type 3 -> what is left of the input
+            lt = first & 3
+            w = (1, 2, 4, 0)[lt]
+            if len(data) - 1 >= w:
+                want = (0, (first >> 2) & 15, w if lt != 3 else 1,
+                        int.from_bytes(data[1:1 + w], 'big') if lt != 3 else len(data) - 1, data[1 + w:])
+                ctx.case('oldhdr-decode-rfc', data)
+                if o != ('ok', want):
+                    ctx.fail('oldhdr-decode-rfc', 'old-format header does not decode to the RFC 4880 4.2.1 value',
+                             {'op': 'hdr_parse', 'data': data.hex(), 'rfc': repr(want), 'impl': repr(o)})
 
     # ---- 4. new-format header emit for every tag ----
     for tag in range(0, 64):
